@@ -1,3 +1,125 @@
+import QmiModel.Model.Pipeline
 import Drv.Common
-/-! stub driver for C03: replaced when the model is built -/
-def main : IO Unit := Drv.main' (fun (s : Unit) _ => (s, "bad-op")) ()
+/-!
+Driver for C03: replays an event log of the real request path on `QmiModel.Pipeline`.
+
+    init                      reset (new scenario)
+    thread c k                caller thread c lives in context k
+    object o k                object o lives in context k
+    start o w                 RpcObjectManager.start created worker thread w for o
+    issue c o r               caller c entered the proxy call (request r for o)
+    enqL c o r                c's own thread appended the request to o's fifo            -> ok fifo=<fifo o> inv
+    enqR c o r                c's thread queued the send on its context's event loop      -> ok ready=<ready (ctx c)> inv
+    send k c o r              event loop of k put the request on the wire                 -> ok inv
+    deliver k d c o r         event loop of d took it off the wire k->d, appended to fifo -> ok fifo=<fifo o> inv
+    pop w o c r               thread w took the request from o's fifo                     -> ok fifo=<fifo o> inv
+    enter w o c r / exit …    observation: thread w is inside the method for request r    -> ok
+    finish w o c r            thread w finished handling the request                      -> ok inv
+    final o                   -> executed=<executed o> by=<execBy o>
+
+Every event must be *enabled* (`step … = some _`) and name the request the model has at that position; otherwise the
+answer is `not-enabled:<why>` and the state is unchanged.  After every state change the pipeline invariant
+(`fifo_pipeline`) is evaluated for every declared (caller, object) pair: `inv` / `inv-broken`.
+-/
+open QmiModel.Pipeline
+
+structure DS where
+  T  : Topo
+  s  : State
+  cs : List Nat
+  os : List Nat
+
+def DS.empty : DS := { T := { ctxOf := fun _ => 0, home := fun _ => 0 }, s := init, cs := [], os := [] }
+
+def showReqs (l : List Req) : String :=
+  if l.isEmpty then "-" else ",".intercalate (l.map fun x => s!"{x.caller}:{x.obj}:{x.id}")
+
+def showNats (l : List Nat) : String :=
+  if l.isEmpty then "-" else ",".intercalate (l.map toString)
+
+def invOk (d : DS) : Bool :=
+  d.cs.all fun c => d.os.all fun o => (stages d.T d.s c o).filter (sel c o) == issuedBy d.s c o
+
+def invTag (d : DS) : String := if invOk d then "inv" else "inv-broken"
+
+def nats (ws : List String) : Option (List Nat) := ws.mapM String.toNat?
+
+/-- apply an action; `why` names the guard that failed when it is not enabled -/
+def act (d : DS) (a : Act) (why : String) (extra : DS → String) : DS × String :=
+  match step d.T d.s a with
+  | some s' => let d' := { d with s := s' }; (d', s!"ok{extra d'} {invTag d'}")
+  | none => (d, s!"not-enabled:{why}")
+
+def stepLine (d : DS) (line : String) : DS × String :=
+  match line.splitOn " " with
+  | ["init"] => (DS.empty, "ok")
+  | "thread" :: ws =>
+    match nats ws with
+    | some [c, k] => ({ d with T := { d.T with ctxOf := upd d.T.ctxOf c k }, cs := if d.cs.contains c then d.cs else d.cs ++ [c] }, "ok")
+    | _ => (d, "bad-op")
+  | "object" :: ws =>
+    match nats ws with
+    | some [o, k] => ({ d with T := { d.T with home := upd d.T.home o k }, os := if d.os.contains o then d.os else d.os ++ [o] }, "ok")
+    | _ => (d, "bad-op")
+  | "start" :: ws =>
+    match nats ws with
+    | some [o, w] => act d (.start o w) "second-worker" (fun _ => "")
+    | _ => (d, "bad-op")
+  | "issue" :: ws =>
+    match nats ws with
+    | some [c, o, r] =>
+      if (d.s.hand c).isSome then (d, "not-enabled:previous-call-still-in-hand")
+      else act d (.issue c o r) "duplicate-request" (fun _ => "")
+    | _ => (d, "bad-op")
+  | "enqL" :: ws =>
+    match nats ws with
+    | some [c, o, r] =>
+      if d.s.hand c != some ⟨c, o, r⟩ then (d, "not-enabled:not-in-hand")
+      else act d (.enqLocal c) "route-not-local" (fun d' => s!" fifo={showReqs (d'.s.fifo o)}")
+    | _ => (d, "bad-op")
+  | "enqR" :: ws =>
+    match nats ws with
+    | some [c, o, r] =>
+      if d.s.hand c != some ⟨c, o, r⟩ then (d, "not-enabled:not-in-hand")
+      else act d (.enqRemote c) "route-not-remote" (fun d' => s!" ready={showReqs (d'.s.ready (d'.T.ctxOf c))}")
+    | _ => (d, "bad-op")
+  | "send" :: ws =>
+    match nats ws with
+    | some [k, c, o, r] =>
+      if (d.s.ready k).head? != some ⟨c, o, r⟩ then (d, "not-enabled:not-head-of-ready-queue")
+      else act d (.loopRun k) "ready-queue-empty" (fun _ => "")
+    | _ => (d, "bad-op")
+  | "deliver" :: ws =>
+    match nats ws with
+    | some [k, dd, c, o, r] =>
+      if (d.s.wire k dd).head? != some ⟨c, o, r⟩ then (d, "not-enabled:not-head-of-wire")
+      else act d (.wireDeliver k dd) "wire-empty" (fun d' => s!" fifo={showReqs (d'.s.fifo o)}")
+    | _ => (d, "bad-op")
+  | "pop" :: ws =>
+    match nats ws with
+    | some [w, o, c, r] =>
+      if d.s.worker o != some w then (d, "not-enabled:not-the-worker")
+      else if (d.s.cur o).isSome then (d, "not-enabled:worker-busy")
+      else if (d.s.fifo o).head? != some ⟨c, o, r⟩ then (d, "not-enabled:not-head-of-fifo")
+      else act d (.workerPop w o) "fifo-empty" (fun d' => s!" fifo={showReqs (d'.s.fifo o)}")
+    | _ => (d, "bad-op")
+  | [tag, w, o, c, r] =>
+    match nats [w, o, c, r] with
+    | some [w, o, c, r] =>
+      if tag == "enter" || tag == "exit" then
+        if d.s.worker o != some w then (d, "not-enabled:not-the-worker")
+        else if d.s.cur o != some ⟨c, o, r⟩ then (d, "not-enabled:not-the-current-request")
+        else (d, "ok")
+      else if tag == "finish" then
+        if d.s.worker o != some w then (d, "not-enabled:not-the-worker")
+        else if d.s.cur o != some ⟨c, o, r⟩ then (d, "not-enabled:not-the-current-request")
+        else act d (.workerFinish w o) "idle" (fun _ => "")
+      else (d, "bad-op")
+    | _ => (d, "bad-op")
+  | ["final", o] =>
+    match o.toNat? with
+    | some o => (d, s!"executed={showReqs (d.s.executed o)} by={showNats (d.s.execBy o)} cur={showReqs (d.s.cur o).toList}")
+    | none => (d, "bad-op")
+  | _ => (d, "bad-op")
+
+def main : IO Unit := Drv.main' stepLine DS.empty
